@@ -1,5 +1,7 @@
 import ModVerif.AuditCmd
 import ModVerif.Props.C09
 import ModVerif.Tie.Tlog
+import ModVerif.Tie.FnTlogInt
 #audit_module ModVerif.Props.C09
 #audit_module ModVerif.Tie.Tlog
+#audit_module ModVerif.Tie.FnTlogInt
